@@ -64,11 +64,11 @@ def workloads(ctx: core.Ctx) -> list[dict]:
                      ["again", "a"], ["subst", 2, 1], ["blob", "x", 300], ["blob", "y", 30000]],
              "end": "close"}]},
         # the first process dies without closing (WAL left behind), the second one recovers and goes on
-        {"name": "resume", "keys": keys, "sessions": [
+        {"name": "resume", "keys": keys, "double": True, "sessions": [
             {"ops": [["cred", "a", None, 0], ["blob", "x", 2000]], "end": "abandon"},
             {"ops": [["cred", "b", "a", 1], ["blob", "z", 9000], ["content", "d", 9000]], "end": "close"}]},
         # a version-1 wallet file (fabricated, "setup" sessions are not crash-enumerated) is upgraded on open
-        {"name": "upgrade", "keys": keys, "sessions": [
+        {"name": "upgrade", "keys": keys, "double": True, "sessions": [
             {"ops": [["legacy", ["old1", "old2"], 3000]], "end": "abandon", "setup": True},
             {"ops": [["blob", "new", 500]], "end": "close"}]},
     ]
@@ -81,7 +81,7 @@ def workloads(ctx: core.Ctx) -> list[dict]:
                 {"ops": [["cred", "c", "b", 1], ["again", "c"], ["content", "e", 40000], ["blob", "r", 100]],
                  "end": "close"}]},
             # enough WAL traffic to cross the 1000-frame auto-checkpoint inside one session
-            {"name": "autocheckpoint", "keys": keys, "modes": ["before"], "no_double": True, "sessions": [
+            {"name": "autocheckpoint", "keys": keys, "modes": ["before"], "sessions": [
                 {"ops": [["open"], ["cred", "a", None, 0]] + [["blob", "big%d" % i, 150000] for i in range(56)]
                  + [["cred", "b", "a", 1]], "end": "close"}]},
         ]
@@ -111,7 +111,12 @@ _COUNTER = 0
 def scratch_root() -> str:
     global _ROOT
     if _ROOT is None:
-        _ROOT = os.path.join(VERIF, "build", "scratch", f"c19-{os.getpid()}")
+        parent = os.path.join(VERIF, "build", "scratch")
+        os.makedirs(parent, exist_ok=True)
+        for name in os.listdir(parent):     # left behind by a run that was itself killed
+            if name.startswith("c19-") and name[4:].isdigit() and not os.path.exists(f"/proc/{name[4:]}"):
+                shutil.rmtree(os.path.join(parent, name), ignore_errors=True)
+        _ROOT = os.path.join(parent, f"c19-{os.getpid()}")
         shutil.rmtree(_ROOT, ignore_errors=True)
         os.makedirs(_ROOT)
         atexit.register(cleanup)
@@ -455,7 +460,7 @@ def plan_items(ctx: core.Ctx, wi: int, session: int, p: dict) -> list:
     for n, what in enumerate(p["py_trace"], 1):
         for mode in ("before", "after"):
             items.append((wi, session, [{"kind": "py", "n": n, "mode": mode, "torn": 0, "site": what}]))
-    if ctx.thorough and not w.get("no_double"):
+    if ctx.thorough and w.get("double"):
         for t in trace:
             items.append((wi, session, [{"kind": "sys", "n": t["n"], "mode": "before", "torn": 0,
                                          "site": f"{t['call']} {t['file']}"},
